@@ -239,6 +239,9 @@ func genLedgerWith(b ledgerBias) func(r *prng, seed uint64, tier string) *Plan {
 				if r.Chance(0.3) {
 					st.K = 1 + r.Intn(cfg.Nodes)
 				}
+				if kind != "orphan" && r.Chance(0.3) {
+					st.Via = "ahead" // the forbidden vertex overtakes its parent and comes back through the orphan retry
+				}
 				// the rules hold for every kind of transaction: transfers, contracts, contracts that also move spice
 				switch r.Intn(3) {
 				case 0:
